@@ -32,6 +32,7 @@ class CaseResult:
         self.f_exact = 0
         self.tags = {}
         self.points = []
+        self.mags = []
 
     def add(self, kind, detail):
         self.ok = False
@@ -62,6 +63,7 @@ def compare_case(desc, driver, rng, R=3, built=None, points=None, want=('rows', 
                 pts[pi] = rand_point(rng, b)
         phys = B.eval_phys(b, xv, pv, fv)
         phys_pts.append(phys)
+        res.mags.append(b.last_mags)
         impl_atoms_pts.append(B.atoms_of_impl(g, lbg, ubg))
         driver.send(dl)
         driver.send(Mo.point_lines(desc, phys))
